@@ -127,7 +127,7 @@ theorem ibufWF_recv (env : Env) (line : Str) (w : W) (h : IbufWF w.st) : IbufWF 
     (ParkOK.of_all fun _ => ibuf_same fun _ => rfl) env).step w h
 
 theorem ibufWF_send (obj : Option Msg) (b : Bool) (w : W) (h : IbufWF w.st) : IbufWF (apiSend obj b w).2.st :=
-  (rel_apiSend (ibufWF_stepRel default) (fun _ => ibuf_same fun _ => rfl) obj b).step w h
+  (rel_apiSend (ibufWF_stepRel default) (fun _ _ => ibuf_same fun _ => rfl) obj b).step w h
 
 theorem ibufWF_init : IbufWF {} := by simp [IbufWF, PDict.WF, PDict.keys]
 
